@@ -175,6 +175,9 @@ def sampleHeap : Heap where
   height := fun p => if p = 1 then 3 else if p = 2 then 2 else 1
   slope := fun p => if p = 1 then 2 else if p = 2 then 1 else 0
   root := 1
+  next := fun p => if p = 3 then 2 else if p = 2 then 1 else 99
+  prev := fun p => if p = 99 then 1 else if p = 1 then 2 else if p = 2 then 3 else 0
+  endItem := 99
 
 def sampleTree : Tree := node 0 5 50 3 2 (node 1 3 30 2 1 (node 2 1 10 1 0 nil nil) nil) nil
 
